@@ -288,7 +288,7 @@ def run_wb_log(cx):
 
     def kind(line, reply):
         return "conc:errsched:" + (reply[0] if reply[0] == "ok" else reply[1])
-    cx.differential("conc", ok_lines, "wb_log", kind=kind)
+    cx.differential("conc", ok_lines, "wb_log", kind=kind, timeout=240)
 
     exe = cx.harness("wb_log")
     # schedules the model calls stale: the library itself must touch freed memory (F8), one process per schedule
